@@ -290,6 +290,9 @@ def run(chk):
         rich += (f"#[typeshare]\npub struct Base{j} {{ pub b: u32 }}\n#[typeshare]\npub type Mid{j} = Base{j};\n#[typeshare]\npub type Top{j} = Mid{j};\n"
                  f"#[typeshare]\npub type Over{j} = Top{j};\n")
     rich += ('#[typeshare]\n#[serde(tag = "t", content = "c")]\npub enum UsesChains { A(Top0), B(Over1), C(Mid2), D(Base3), E(Over3), F { x: Top2, y: Vec<Over0> } }\n')
+    # generic items with several parameter names (per-name tables: type variables, imports)
+    rich += ("#[typeshare]\npub struct Page<Item, Cursor, Meta, Extra> { pub items: Vec<Item>, pub next: Option<Cursor>, pub meta: Meta, pub extra: Extra }\n"
+             '#[typeshare]\n#[serde(tag = "t", content = "c")]\npub enum Outcome<Good, Failure, Pending> { Done(Good), Failed(Failure), Waiting { on: Pending } }\n')
     for lang in common.LANGS:
         for mode in ("single", "multi"):
             d = os.path.join(work, f"rich_{lang}_{mode}")
